@@ -753,6 +753,13 @@ theorem two_station_ring_step (cfg : Cfg) (hok : cfg.Ok) (n : Net) (v : View) (h
     (e : EvOk cfg n v i now) : StepOut cfg n v i now :=
   ring2_step h hok i now e
 
+/-- **Silence bound of normal operation**: at every event of a scheduled run the end of the last
+transmission lies at most `Tslot + P` back (the longest silence is the unanswered GAP request) — far
+below every token-lost time-out `Tto ≥ 6·Tslot`; this is why nobody claims. -/
+theorem two_station_ring_silence (cfg : Cfg) (hok : cfg.Ok) (n : Net) (v : View) (h : RInv cfg n v) (i : Nat) (now : Int)
+    (e : EvOk cfg n v i now) : now ≤ n.bus.txEnd v.tr + (cfg.slot : Nat) + (cfg.P : Nat) :=
+  ring2_silence h hok i now e
+
 /-- The schedule condition is a condition on the poll times alone. -/
 theorem schedule_of_times (P : Nat) (evs : List (Nat × Int)) (n : Net) (tl : Int)
     (h : SchedT P n.bus.seen tl evs) : Sched P n tl evs :=
